@@ -102,6 +102,31 @@ Definition drsb_setup (B active : nat) (Kb : gcrs (@block S)) (eps_dd eps_ps : S
                              map (fun cv => (fst cv, cprb_app_val B d (snd cv))) br)
                    (seq 0 np))).
 
+(* the block variant as REPAIRED: entries in inactive block columns (col >= np) take no part in the
+   row sums and in App (as in the scalar variant) *)
+Definition drsb_setup_f (B active : nat) (Kb : gcrs (@block S)) (eps_dd eps_ps : S) (weights : vec) : cpr_ops :=
+  let n := length (grows Kb) in let np := cpr_N n active in
+  let act (br : grow (@block S)) := filter (fun cv => Nat.ltb (fst cv) np) br in
+  mkCprOps
+    (mkCrs (np * B) (map (fun i => let d := drsb_weights B (act (nth i (grows Kb) [])) i eps_dd eps_ps weights in
+                                   map (fun k => ((i * B + k)%nat, vget d k)) (seq 0 B))
+                         (seq 0 np)))
+    (mkCrs np (map (fun i => if Nat.eqb (i mod B) 0 then [((i / B)%nat, s1)] else []) (seq 0 (np * B))))
+    (mkCrs np (map (fun i => let br := act (nth i (grows Kb) []) in
+                             let d := drsb_weights B br i eps_dd eps_ps weights in
+                             map (fun cv => (fst cv, cprb_app_val B d (snd cv))) br)
+                   (seq 0 np))).
+Definition drsb_make_f (B active : nat) (Kb : gcrs (@block S)) (eps_dd eps_ps : S) (weights : vec) : cpr_ops :=
+  drsb_setup_f B active (mkG (gncols Kb) (map gsort_row (grows Kb))) eps_dd eps_ps weights.
+
+(* partial_update(K', true) as REPAIRED (first_scalar_pass(K', get_app = false) no longer touches the
+   absent App): Fpp is recomputed from the sorted copy of K'; the weights do not depend on get_app *)
+Definition drs_partial_update (B active : nat) (ops : cpr_ops) (K' : crs) (eps_dd eps_ps : S) (weights : vec)
+    (update_transfer : bool) : cpr_ops :=
+  if update_transfer
+  then mkCprOps (c_fpp (drs_make B active K' eps_dd eps_ps weights)) (c_scatter ops) (c_app ops)
+  else ops.
+
 Definition drsb_make (B active : nat) (Kb : gcrs (@block S)) (eps_dd eps_ps : S) (weights : vec) : cpr_ops :=
   drsb_setup B active (mkG (gncols Kb) (map gsort_row (grows Kb))) eps_dd eps_ps weights.
 
